@@ -155,15 +155,40 @@ def k_text(run, case, rng, work):
             fh.write(b"\xef\xbb\xbf" + b"# earlier content\n" + buf.getvalue().encode())
         contracts.outcome_of(reader, wt)
         contracts.outcome_of(fi.has_utf8_bom, wt)
+    # handles need not be at offset 0: several trajectories in one stream, or a title line that
+    # the caller consumed itself
+    lead = ["none", "none", "trajectory", "title"][rng.integers(4)] if (special == "handle" or
+                                                                        isinstance(wt, io.StringIO)) else "none"
+
+    def write_lead(fh):
+        if lead == "trajectory":
+            writer(fh, make_traj(rng, int(rng.integers(1, 9)), "ordinary", "xyzq", stamped=(fmt == "tum")))
+        elif lead == "title":
+            fh.write("recorded by vmon; run 17\n")
+        return fh.tell()
+
+    def position(fh, offset):
+        if lead == "title":
+            fh.seek(0)
+            fh.readline()
+        else:
+            fh.seek(offset)
+
+    if lead != "none":
+        history = "handle positioned after a leading " + lead
     if special == "handle":
         with open(wt, "w") as fh:
+            offset = write_lead(fh)
             writer(fh, tr)
         with open(rt) as fh:
+            position(fh, offset)
             back = reader(fh)
     else:
+        if isinstance(wt, io.StringIO):
+            offset = write_lead(wt)
         writer(wt, tr)
         if isinstance(rt, io.StringIO):
-            rt.seek(0)
+            position(rt, offset)
         back = reader(rt)
     run.seen(case, core.digest(given, fmt, label), nontrivial=bool(np.any(given["p"] != 0)),
              cls=["%s via %s" % (fmt, label), "values:" + cls, "storage:" + mode, history],
